@@ -1,12 +1,14 @@
 """C09 - Folding and ancestral misidentification conserve counts; symmetric, idempotent
 
-Status: bounded run-time contracts only (props/bounded_C09.py) until the proof obligations of DESIGN.md 7 C09 are added.
+Contracts (contracts/py_wiring.py c09_*): fold / unfold entry-wise and mask laws with every entry and mask bit symbolic on small shapes
+(total conserved, mirror-invariance, fold(unfold(fold(x))) = fold(x)), refusal of mixed folding in arithmetic, misidentification mix.
+Larger shapes, slicing and likelihood interplay stay with the bounded drivers (props/bounded_C09.py).
 """
 from vf.helpers import bounded_tasks
 
 META = dict(
     level='other',
-    explanation='Run-time contracts on the real functions over the bounded domain stated per driver (bounded stand-in; nothing proved).',
+    explanation='Wiring / closed-form / memo-key contracts generated from the real source and discharged by z3 and the ring normaliser for the functions within reach (see coverage.obligations); the remaining clauses are run-time contracts over the bounded domain stated per driver (bounded stand-in, never counted as proved).',
     trusted_base=['oracles of props/bounded_C09.py (independent of dadi: exact rationals, mpmath, dense linear algebra, explicit index loops)'],
     rule='cases enumerated or sampled as stated in each driver\'s bound; a case is non-trivial unless the driver marks it degenerate; distinct by its key',
 )
@@ -14,7 +16,7 @@ META = dict(
 
 def tasks(tier):
     from vf.core import Task
-    return [Task('props.wire:run', name='C09/wire.c09_check_other_folding', fname='c09_check_other_folding', timeout=300), Task('props.wire:run', name='C09/wire.c09_misid', fname='c09_misid', timeout=300)] + bounded_tasks('C09', tier)
+    return [Task('props.wire:run', name='C09/wire.c09_check_other_folding', fname='c09_check_other_folding', timeout=300), Task('props.wire:run', name='C09/wire.c09_misid', fname='c09_misid', timeout=300)] + [Task('props.wire:run', name='C09/wire.fold.ns' + '_'.join(map(str, ns)), fname='c09_fold', kwargs=dict(ns=list(ns)), timeout=600) for ns in ([(4,), (5,), (2, 3)] + ([(7,), (8,), (3, 3), (2, 1, 2)] if tier == 'thorough' else []))] + bounded_tasks('C09', tier)
 
 
 MANIFEST_ENTRY = dict(
